@@ -101,6 +101,11 @@ for _k, _v in _TIE.items():
     PROPS[_k]['tie_defs'] = _v
     PROPS[_k]['extra_modules'] = PROPS[_k].get('extra_modules', []) + ['Daac.Props.Tie']
     PROPS[_k]['trusted_extra'] = ['the Rust-to-Lean translator tools/rs2lean.py and its prelude lean/Daac/Gen/Prelude.lean (meaning of the std items; fuel for `loop`); the equalities generated = model are theorems (Daac/Props/Tie.lean)']
+# construction side: the helper and the layout primitives of both builders (generated H.*, LB.*, LC.*)
+for _k in ('C01', 'C02', 'C03', 'C04', 'C05', 'C07', 'C10', 'C11', 'C13', 'C14', 'C15'):
+    PROPS[_k]['tie_defs'] = PROPS[_k].get('tie_defs', []) + [r'^(H|LB|LC)\.']
+    PROPS[_k]['extra_modules'] = PROPS[_k].get('extra_modules', []) + ['Daac.Props.TieBuild']
+    PROPS[_k].setdefault('trusted_extra', ['the Rust-to-Lean translator tools/rs2lean.py and its preludes lean/Daac/Gen/Prelude.lean, PreludeBuild.lean (meaning of the std items; fuel for loops); the equalities generated = model are theorems (Daac/Props/Tie.lean, TieBuild.lean)'])
 for _k, (_s, _r) in _NOTES.items():
     PROPS[_k]['statement'] = _s
     PROPS[_k]['residue'] = _r
